@@ -24,6 +24,61 @@ def _facts(repo):
     return f
 
 
+_MUTATORS = {"append", "pop", "clear", "extend", "insert", "remove", "popleft", "appendleft", "update", "add", "discard", "sort", "reverse"}
+
+
+def _pull_path_container_writes(repo, c):
+    """Container attributes (lists, dicts, deques created in the constructors) that a request changes: mutated or re-bound in a
+    method reachable from get_data through self. / super(). calls."""
+    from ..absbase import FinamInterp, seed_from_init
+    from ..astq import fn_walk, self_attr
+    from ..interp import Obj
+    from ..lek import _callee_of
+    probe = Obj(cls=c, label=c.name)
+    seed_from_init(FinamInterp(repo), c, probe, {})
+    containers = {k for k, v in probe.fields.items() if isinstance(v, (list, dict, set))}
+    out, seen = set(), set()
+
+    def walk_fn(f, depth):
+        if f is None or f.qualname in seen or depth > 4:
+            return
+        seen.add(f.qualname)
+        for n in fn_walk(f.node):
+            if isinstance(n, (ast.Assign, ast.AugAssign)):
+                for t in (n.targets if isinstance(n, ast.Assign) else [n.target]):
+                    base = t.value if isinstance(t, ast.Subscript) else t
+                    a = self_attr(base) if isinstance(base, ast.Attribute) else None
+                    if a in containers:
+                        out.add(a)
+            if isinstance(n, ast.Delete):
+                for t in n.targets:
+                    base = t.value if isinstance(t, ast.Subscript) else t
+                    a = self_attr(base) if isinstance(base, ast.Attribute) else None
+                    if a in containers:
+                        out.add(a)
+            if isinstance(n, ast.Call) and isinstance(n.func, ast.Attribute) and n.func.attr in _MUTATORS and isinstance(n.func.value, ast.Attribute) \
+                    and self_attr(n.func.value) in containers:
+                out.add(self_attr(n.func.value))
+            if isinstance(n, ast.Call):
+                name, callee = _callee_of(repo, c, f, n)
+                if callee is not None and callee is not f and name != "pull_data":
+                    walk_fn(callee, depth + 1)
+
+    walk_fn(repo.resolve(c, "get_data", "method"), 0)
+    return out
+
+
+def required_nobranch(repo):
+    """Adapters whose answer to a request depends on the requests they saw before (they keep a history that a request changes)
+    serve ONE consumer: they must carry the no-branch marker, whatever the class statement says today."""
+    cached = getattr(repo, "_required_nobranch", None)
+    if cached is None:
+        ads, _eps = lek.require_table(repo)
+        cached = repo._required_nobranch = {e.name: sorted(_pull_path_container_writes(repo, e.cls)) for e in ads}
+        cached = repo._required_nobranch = {k: v for k, v in cached.items() if v}
+    return cached
+
+
 def _expected(topo, comps_in, facts):
     """Reference: which error (if any) validation must raise. Order of checks is free: we
     return the *set* of reasons; the code must raise FinamConnectError iff the set is non-empty."""
@@ -66,7 +121,7 @@ def _expected(topo, comps_in, facts):
             stack = [(out, False)]
             while stack:
                 el, nb = stack.pop()
-                nb = nb or (el.cls is not None and topo.repo.is_subclass(el.cls, nobranch))
+                nb = nb or (el.cls is not None and (topo.repo.is_subclass(el.cls, nobranch) or el.cls.name in required_nobranch(topo.repo)))
                 tg = el.fields.get("targets", [])
                 if nb and len(tg) > 1:
                     reasons.add("branching")
@@ -174,6 +229,22 @@ def _topologies(repo):
         t.link(oa, [], b, "in1")
         t.link(ox, [PASS], b, "in2")
         out.append((f"missing-upstream:{'same' if same_names else 'distinct'}-names", t, [a, b]))
+    # a pull-only source feeds a pull-type and a push-type consumer (directly and behind pass-through adapters): the chain to the
+    # push-type consumer is dead whichever consumer is listed / linked first
+    for n_pass in (0, 1, 2):
+        for push_first, list_push_first in itertools.product((False, True), repeat=2):
+            t = Topo(repo)
+            a = t.comp("A")
+            b, c_ = (t.comp("Bpush"), t.comp("Cpull")) if list_push_first else (t.comp("Cpull"), t.comp("Bpush"))
+            o = t.output(a, pull=True)
+            shared = t.link(o, [PASS] * n_pass, None) if n_pass else []
+            ends = [("Bpush", "CallbackInput"), ("Cpull", "Input")]
+            if not push_first:
+                ends.reverse()
+            for cname, sink_kind in ends:
+                t.link(o, shared, t.comps[cname], sink=sink_kind)
+            out.append((f"dead-link:fan:{n_pass}-pass:{'push' if push_first else 'pull'}-linked-first:{'push' if list_push_first else 'pull'}-listed-first",
+                        t, [a, b, c_]))
     # a consumer that is not part of the composition hangs on a fan-out: next to / behind adapter branches, in both link orders
     for name, first_chain, second_chain, missing_first in (
         ("adapter-branch-then-direct", [PASS], [], False), ("direct-then-adapter-branch", [], [PASS], False),
@@ -210,6 +281,16 @@ def r38_valid(repo, sink):
     if f is None:
         raise AnalysisError("Composition._validate_composition not found")
     facts = _facts(repo)
+    # adapters that keep a per-consumer history carry the no-branch marker
+    nb = repo.cls("NoBranchAdapter")
+    req = required_nobranch(repo)
+    for name, attrs in sorted(req.items()):
+        c = repo.cls(name)
+        sink.check(repo.is_subclass(c, nb), "R38", f"no-branch-marker:{name}", (c.file, c.node.lineno),
+                   ok=f"{name} changes its own history {attrs} on every request and is marked as no-branch",
+                   bad=f"{name} changes its own history {attrs} on every request (one history for all consumers) but is not a NoBranchAdapter: "
+                       "a fan-out at or below it passes validation and the consumers corrupt each other's data")
+    sink.floor("R38", "adapters with a per-request history", len(req), 6)
     # documented needs_push / needs_pull table of the end points and adapter base
     doc = {"Input": (False, True), "CallbackInput": (True, False), "Output": (True, False), "CallbackOutput": (False, True)}
     for name, (push, pull) in doc.items():
